@@ -65,7 +65,7 @@ func main() {
 		"transaction of an accepted block of a replayed Ledger.tla behaviour) x (as is | re-signed and re-sealed); distinct by (entry, sealing, transaction template, era); " +
 		"non-trivial iff the entry changed the block. evaluations = cases executed on the real code.")
 	c.Assume("the schema lines of spec/wire and the generic transaction of spec/ledger/Ledger.tla describe the formats and the ledger (bound to the code by C11 and C01..C08)")
-	c.Assume("a worker process runs one case at a time, so runtime.MemStats.TotalAlloc deltas are the case's allocations; suspicious cases are re-measured alone three times")
+	c.Assume("a worker process runs one case at a time, so runtime.MemStats.TotalAlloc deltas are the case's total allocations: the cheap filter. The verdict is the PEAK heap growth during the call, measured three times (smallest counts) in a fresh process that holds next to nothing, with a sampler forcing collections back to back; a reading overestimates memory held by what is allocated during one collection (1-3 MB for the fastest churners)")
 	c.Assume("the v1 block supplement is the node's own data: ValidateBlock checks it against the accumulator before any transaction sees it, so entries that change the CONTENT of supplement elements go through ValidateBlock only (entries about which elements it holds also go through ValidateTransaction)")
 	c.Assume("an allocation above the bound that encoding/json itself makes while it builds the value (slice growth, zeroed elements for null: at most the size of the Go type per array element) is a property of the Go JSON decoder and is counted, not reported; allocations made by functions of core (or by libraries they call) are reported")
 	c.Assume("unstructured random bytes are not generated (that would be fuzzing, not model-based generation)")
@@ -191,7 +191,7 @@ func main() {
 	if msg := <-canaryDone; msg != "" {
 		c.Infra("self-test of the guard failed: %s", msg)
 	} else {
-		c.Cov("guard_selftest", "synthetic entry points: panic, 8 MiB held for 16 bytes, no return by the long deadline and process death are flagged; a benign one, a slow one (observation only) and one that churns 16 MiB of garbage while holding 16 KiB are not")
+		c.Cov("guard_selftest", "synthetic entry points: panic, 8 MiB held for 16 bytes, no return by the long deadline and process death are flagged; a benign one, a slow one (observation only) and one that churns 64 MiB of garbage for 64 KiB of input while holding 32 KiB are not")
 	}
 	if cat == nil {
 		c.Finish()
